@@ -29,6 +29,7 @@ package main
 // (top level, argument-free) run before each rewritten return. Anything else is left as a call.
 
 import (
+	"regexp"
 	"bufio"
 	"bytes"
 	"fmt"
@@ -366,6 +367,7 @@ type inliner struct {
 	edits    map[*ast.File][]edit
 	seq      int
 	addImp   map[*ast.File]map[string]string // path -> alias to add
+	addAlias map[string]*ast.File             // shadowed type name of this package -> file that gets `type __shN_name = name`
 }
 
 func (in *inliner) content(f *ast.File) []byte {
@@ -466,6 +468,16 @@ func (in *inliner) run() (int, []string) {
 		res := out.Bytes()
 		if imps := in.addImp[f]; len(imps) > 0 {
 			res = addImports(res, imps)
+		}
+		var aliasNames []string
+		for nm, af := range in.addAlias {
+			if af == f {
+				aliasNames = append(aliasNames, nm)
+			}
+		}
+		sort.Strings(aliasNames)
+		for _, nm := range aliasNames {
+			res = append(res, []byte(fmt.Sprintf("\ntype __sh%d_%s = %s\n", in.round, nm, nm))...)
 		}
 		in.overlay[in.fset.File(f.Pos()).Name()] = res
 	}
@@ -957,7 +969,23 @@ func (in *inliner) expand(f *ast.File, encl *ast.FuncDecl, s ast.Stmt, c *ast.Ca
 	in.counter++
 	k := fmt.Sprintf("%d_%d", in.round, in.counter)
 	q := in.qualifier(f)
-	ts := func(t types.Type) string { return types.TypeString(t, q) }
+	// a type of this package whose name is shadowed by a local at the call site (`request *request`) is
+	// spelled through a package-level alias added to the overlay
+	ts := func(t types.Type) string {
+		str := types.TypeString(t, q)
+		for _, nm := range in.shadowedTypeNames(t, c.Pos()) {
+			alias := fmt.Sprintf("__sh%d_%s", in.round, nm)
+			re := regexp.MustCompile(`(^|[^.A-Za-z0-9_])` + regexp.QuoteMeta(nm) + `\b`)
+			str = re.ReplaceAllString(str, "${1}"+alias)
+			if in.addAlias == nil {
+				in.addAlias = map[string]*ast.File{}
+			}
+			if _, has := in.addAlias[nm]; !has {
+				in.addAlias[nm] = f
+			}
+		}
+		return str
+	}
 
 	var hoist strings.Builder
 	// result temporaries
@@ -1355,10 +1383,18 @@ func unnameResults(fset *token.FileSet, f *ast.File, src []byte) ([]byte, int) {
 // typeNameShadowed: a package-level type named in t is hidden at pos by a local of the same name (so the type
 // cannot be written there).
 func (in *inliner) typeNameShadowed(t types.Type, pos token.Pos) bool {
+	return len(in.shadowedTypeNames(t, pos)) > 0
+}
+
+// shadowedTypeNames: the named types of this package occurring in t whose name denotes something else
+// at pos.
+func (in *inliner) shadowedTypeNames(t types.Type, pos token.Pos) []string {
 	scope := in.pkg.Types.Scope().Innermost(pos)
 	if scope == nil {
-		return false
+		return nil
 	}
+	var names []string
+	seenN := map[string]bool{}
 	shadowed := false
 	var walk func(t types.Type, d int)
 	walk = func(t types.Type, d int) {
@@ -1382,11 +1418,16 @@ func (in *inliner) typeNameShadowed(t types.Type, pos token.Pos) bool {
 				if _, o := scope.LookupParent(x.Obj().Name(), pos); o != nil {
 					if _, isType := o.(*types.TypeName); !isType {
 						shadowed = true
+						if !seenN[x.Obj().Name()] {
+							seenN[x.Obj().Name()] = true
+							names = append(names, x.Obj().Name())
+						}
 					}
 				}
 			}
 		}
 	}
 	walk(t, 0)
-	return shadowed
+	_ = shadowed
+	return names
 }
